@@ -35,7 +35,12 @@ Two earlier rounds already produced the obvious and the moderately subtle bugs f
 
 Reply with a short summary per bug: directory, one-line description, what is needed to manifest, and the exact commands you ran to confirm (suite green with change; demo fails with change, passes without). Be honest if you could not confirm something.
 '''
+GUIDANCE4 = """Three earlier rounds already produced the obvious, the moderately subtle and the "classic regression" bugs for this property (incomplete cache keys, TrimRight-for-TrimSuffix, map iteration, string-prefix-for-path-prefix, missing O_TRUNC, shadowed identifiers, settings read from the wrong level). Do not repeat those mechanisms. Aim for changes that look like *semantics-preserving refactors* and would pass review: extracting a helper that evaluates its arguments at a different time; value receiver vs pointer receiver, or a struct copied where it used to be shared (or the reverse); deep copy replaced by shallow copy of a nested map or slice; re-ordering two initialisation steps; a default filled in earlier or later than before (nil vs false for optional booleans, empty vs unset strings); path normalisation (filepath.Clean / Abs / EvalSymlinks / ToSlash) applied on one side of a comparison only; case-insensitive comparison where it was exact; a compiled, anchored or multi-line regexp replacing a plain one; errors.Is vs == ; template whitespace trimming ({{- -}}) moved; a loop that now stops at the first match or the first error; a slice re-sliced instead of copied; a defer moved into or out of a loop; a `continue` that used to be a `return`; a condition simplified with De Morgan's law incorrectly for one combination. The source files most relevant to this property are: {anchors}. Spread your two bugs over different files or mechanisms where you can. Each bug must leave the build and the existing test suite green, and must need a specific input, configuration or sequence to show."""
 suffix = sys.argv[1]
+if suffix.startswith("4"):
+    a = T.index("## Additional guidance for this round")
+    b = T.index("## Environment facts")
+    T = T[:a] + "## Additional guidance for this round\n\n" + GUIDANCE4.replace("{{- -}}", "{{{{- -}}}}") + "\n\n" + T[b:]
 for pid in (sys.argv[2:] or sorted(props)):
     p = props[pid]
     open('/tmp/mut%s_prompt_%s.txt' % (suffix, pid), 'w').write(T.format(
